@@ -153,7 +153,8 @@ def euler_calls(mname):
 
     mod = {"tools": xfab.tools, "laue": xfab.laue}[mname]
     tp = 2 * math.pi
-    good = [(0.1, 0.2, 0.3), (0.0, tp, math.pi), (tp, 0.0, tp), (0.0, 0.0, 0.0), (6.0, 3.0, 1e-9), (1.0, 4.0, 2.0)]
+    good = [(0.1, 0.2, 0.3), (0.0, tp, math.pi), (tp, 0.0, tp), (0.0, 0.0, 0.0), (6.0, 3.0, 1e-9), (1.0, 4.0, 2.0),
+            (-0.0, 1.0, 2.0), (1.0, -0.0, 2.0), (1.0, 2.0, -0.0), (-0.0, -0.0, -0.0)]  # -0.0 == 0 lies inside [0, 2pi]
     calls = []
     for e in good:
         calls.append(("%s:euler%r" % (mname, e), "euler_to_u", "inrange", (lambda e=e: mod.euler_to_u(*e)), False))
